@@ -37,6 +37,16 @@ pub(crate) struct DeferredOp {
     pub span: Span,
 }
 
+// A try expression that's in the process of being compiled
+#[derive(Clone, Copy, Debug)]
+pub(crate) struct OpenTry {
+    // The try expression's finally block, which needs to be run when the expression is exited early
+    pub finally_block: Option<AstIndex>,
+    // True while the try block is being compiled,
+    // i.e. while the expression's catch point is registered at runtime
+    pub catch_point_registered: bool,
+}
+
 #[derive(Clone, Debug)]
 pub(crate) struct Loop {
     // The loop's result register,
@@ -45,8 +55,8 @@ pub(crate) struct Loop {
     pub start_ip: usize,
     // Placeholders for jumps to the end of the loop, updated when the loop compilation is complete
     pub jump_placeholders: Vec<usize>,
-    // The number of try blocks that were open when the loop was entered
-    pub open_try_blocks: usize,
+    // The number of try expressions that were open when the loop was entered
+    pub open_try_expressions: usize,
 }
 
 #[derive(Clone, Debug, PartialEq)]
@@ -71,9 +81,8 @@ pub(crate) enum Arg {
 #[derive(Clone, Debug, Default)]
 pub(crate) struct Frame {
     loop_stack: Vec<Loop>,
-    // The number of try blocks that are currently being compiled,
-    // i.e. the number of catch points that are registered at runtime at the current position
-    open_try_blocks: usize,
+    // The try expressions that are currently being compiled
+    try_stack: Vec<OpenTry>,
     register_stack: Vec<u8>,
     local_registers: Vec<LocalRegister>,
     exported_ids: HashSet<ConstantIndex>,
@@ -343,20 +352,39 @@ impl Frame {
             start_ip: loop_start_ip,
             result_register,
             jump_placeholders: Vec::new(),
-            open_try_blocks: self.open_try_blocks,
+            open_try_expressions: self.try_stack.len(),
         });
     }
 
-    pub fn open_try_blocks(&self) -> usize {
-        self.open_try_blocks
+    // The try expressions that are currently being compiled, innermost last
+    pub fn try_stack(&self) -> &[OpenTry] {
+        &self.try_stack
     }
 
-    pub fn try_block_opened(&mut self) {
-        self.open_try_blocks += 1;
+    pub fn push_try(&mut self, open_try: OpenTry) {
+        self.try_stack.push(open_try);
     }
 
-    pub fn try_block_closed(&mut self) {
-        self.open_try_blocks = self.open_try_blocks.saturating_sub(1);
+    pub fn pop_try(&mut self) -> Option<OpenTry> {
+        self.try_stack.pop()
+    }
+
+    // Called when the try block of the innermost try expression has been compiled,
+    // its catch point is cleared before the catch and finally blocks are entered
+    pub fn innermost_try_block_finished(&mut self) {
+        if let Some(open_try) = self.try_stack.last_mut() {
+            open_try.catch_point_registered = false;
+        }
+    }
+
+    // Temporarily removes the try expressions above the given depth (while their finally blocks
+    // are being compiled for an early exit), returning them so that they can be restored
+    pub fn split_off_try_stack(&mut self, depth: usize) -> Vec<OpenTry> {
+        self.try_stack.split_off(depth.min(self.try_stack.len()))
+    }
+
+    pub fn restore_try_stack(&mut self, entries: Vec<OpenTry>) {
+        self.try_stack.extend(entries);
     }
 
     pub fn push_loop_jump_placeholder(&mut self, placeholder_ip: usize) -> Result<(), FrameError> {
